@@ -58,7 +58,7 @@ def finite_inputs(E, srt, rank):
 
 
 def chains(run):
-    FT = 240 if run.tier == "quick" else 1800
+    FT = 240 if run.tier == "quick" else 600
     dtypes = ["float16", "bfloat16"] + (["float32"] if run.tier == "thorough" else [])
     for path in ("weights", "activations"):
         for qname in ("qint8", "qfloat8_e4m3fn", "qfloat8_e5m2", "qint4", "qint2"):
@@ -157,7 +157,7 @@ def zero_layer(run):
     (zl-1) every summand of it is (+-)0 [proved], (zl-2) given that the sum is then (+-)0 [A-TORCH-RED: a sum of zeros is zero], the
     output element equals the bias element [proved]."""
     from props.C07 import occurrences, sums_in
-    FT = 120 if run.tier == "quick" else 900
+    FT = 120 if run.tier == "quick" else 400
     dtypes = ["float16"] + (["bfloat16", "float32"] if run.tier == "thorough" else [])
     for qname in ("qint8", "qint4", "qint2", "qfloat8_e4m3fn"):
         for dtype in dtypes:
